@@ -8,11 +8,14 @@
    env         = Python's codec registry: encoding name -> UTF-8 | Latin-1 | other | unknown.
    accepted    = import_commit does not raise.
    rt_guard    = executable, field-local guard: parents are 40 bytes and timezones whole minutes
-                 (what dulwich requires to serialise), no encoding header or an ASCII one naming
-                 UTF-8 (then the texts are valid UTF-8) or Latin-1 and not "false", both person
+                 (what dulwich requires to serialise), no encoding header or an ASCII one that is
+                 "false" or names UTF-8 (then the texts are valid UTF-8) or Latin-1, both person
                  identifiers are fixed points of fix_person_identifier and not cut by the
-                 several-authors rule, a message is present, every extra header is HG:rename-source
-                 or a known HG:extra whose value contains no str.splitlines() boundary.
+                 several-authors rule, every extra header is HG:rename-source or a known HG:extra
+                 whose value contains no "\n".
+                 (After the repair round -- /repo commits bd50aba, 5f2eb02, e6f8bec -- the guard no
+                 longer asks for a message, for an encoding other than "false", or for the absence
+                 of the other str.splitlines() boundaries.)
    norm        = the same commit with a falsy gpgsig (b"") turned into None (not serialised). *)
 From Coq Require Import ZArith NArith List Bool String.
 From BV Require Import Lib.Bytes Model.GitCommit Theory.GitCommit.
@@ -80,20 +83,25 @@ Proof.
 Qed.
 Print Assumptions C34_export_import_id_refuted.
 
-(* a commit without message: export raises AttributeError *)
-Theorem C34_missing_message_refuted :
-  forall env, not_roundtrip env w_missing_message = true
-              /\ export_error env w_missing_message = Some "AttributeError"%string.
-Proof. exact missing_message_refuted. Qed.
-Print Assumptions C34_missing_message_refuted.
+(* repaired: a commit without message, a commit with "encoding false", an HG:extra value
+   containing "\r" -- the old witnesses now satisfy the guard, so the guarded theorem applies *)
+Theorem C34_missing_message_roundtrips :
+  forall env, exists r, import_commit env w_missing_message = Ok r
+    /\ export_commit env r (c_tree w_missing_message) = Ok (norm w_missing_message).
+Proof. intros env. apply export_import_id. apply missing_message_guard. Qed.
+Print Assumptions C34_missing_message_roundtrips.
 
-(* "encoding false": import falls back to utf-8/latin1, export looks the codec "false" up *)
-Theorem C34_encoding_false_refuted :
-  forall env, env (bs "false") = CUnknown ->
-    not_roundtrip env w_encoding_false = true
-    /\ export_error env w_encoding_false = Some "LookupError"%string.
-Proof. exact encoding_false_refuted. Qed.
-Print Assumptions C34_encoding_false_refuted.
+Theorem C34_encoding_false_roundtrips :
+  forall env, exists r, import_commit env w_encoding_false = Ok r
+    /\ export_commit env r (c_tree w_encoding_false) = Ok (norm w_encoding_false).
+Proof. intros env. apply export_import_id. apply encoding_false_guard. Qed.
+Print Assumptions C34_encoding_false_roundtrips.
+
+Theorem C34_extra_cr_roundtrips :
+  forall env, exists r, import_commit env w_extra_cr = Ok r
+    /\ export_commit env r (c_tree w_extra_cr) = Ok (norm w_extra_cr).
+Proof. intros env. apply export_import_id. apply extra_cr_guard. Qed.
+Print Assumptions C34_extra_cr_roundtrips.
 
 (* author "A<a>" comes back as "A <a>" *)
 Theorem C34_ident_rewritten_refuted :
@@ -114,11 +122,12 @@ Theorem C34_ident_without_lt_refuted :
 Proof. exact ident_no_lt_refuted. Qed.
 Print Assumptions C34_ident_without_lt_refuted.
 
-(* HG:extra value containing "\r": git-extra is re-split with str.splitlines() *)
+(* still open: an HG:extra value containing "\n" (a multi-line header value): git-extra is
+   split at "\n" again on export *)
 Theorem C34_extra_linebreak_refuted :
-  forall env, not_roundtrip env w_extra_cr = true
-              /\ export_error env w_extra_cr = Some "ValueError"%string.
-Proof. exact extra_cr_refuted. Qed.
+  forall env, not_roundtrip env w_extra_nl = true
+              /\ export_error env w_extra_nl = Some "ValueError"%string.
+Proof. exact extra_nl_refuted. Qed.
 Print Assumptions C34_extra_linebreak_refuted.
 
 (* ---- commits the mapping rejects ---- *)
